@@ -11,6 +11,7 @@ CONSTANTS
   AdvSet = {}
   MaxTime = 0
   Grid = {0}
+  MaxInst = 2
 VIEW View
 INVARIANT C01_QuiescentOK
 INVARIANT C02_Lifecycle
@@ -37,4 +38,5 @@ PROPERTY C05_RejectedIsNoop
 INVARIANT C04_Outcome
 INVARIANT C04_Order
 INVARIANT DBG_FewInstances
+CONSTRAINT InstBound
 CHECK_DEADLOCK FALSE
